@@ -106,7 +106,8 @@ impl<'a> OnDiskDirEntry<'a> {
 
     /// Does this on-disk entry match the given filename?
     pub fn matches(&self, sfn: &ShortFileName) -> bool {
-        self.data[0..11] == sfn.contents
+        // A long file name fragment carries name characters, not an 8.3 name
+        !self.is_lfn() && self.data[0..11] == sfn.contents
     }
 
     /// Which cluster, if any, does this file start at? Assumes this is from a FAT32 volume.
